@@ -1,6 +1,6 @@
 /- Property C08: the property theorems (and nothing else). -/
 import Frugal.Proofs.DescMapLemmas
-import Frugal.Props.Instances
+import Frugal.Props.Inst.F_facts_lockDiscipline
 namespace Frugal.C08
 open Frugal
 /-- under every interleaving of any number of goroutines, a completed first-use call returns the
